@@ -127,6 +127,15 @@ theorem reset_goodbye (r other : Record) (h : other.ttl ≤ 1) :
   | nil => rfl
   | cons now rest ih => simp [runRefresh, hfix, hf, ih, List.replicate_succ]
 
+/-- Resolver addresses are re-queried once: `refresh_due_hostname_resolutions` lists an address
+    that is due and not expired and marks it `refresh_no_more`; from then on the record
+    (whose end of life is its natural one) never asks for a refresh again. -/
+theorem resolution_refresh_once (r : Record) (h : r.expires = expTime r.created r.ttl 100) (now : Nat) :
+    r.refreshNoMore.refreshFires now = false := by
+  simp only [refreshFires, isExpired, refreshDue, refreshNoMore, h, Bool.and_eq_false_iff, Bool.not_eq_false',
+    decide_eq_true_eq, decide_eq_false_iff_not]
+  omega
+
 /-! ### the cache-flush rule -/
 
 /-- **Cache flush.**  `add_or_update` of a record `inc` arriving at `now`, on the entries `es`
